@@ -7,6 +7,7 @@ ID=$(python3 -c "import json,sys; print(json.load(open('$D/meta.json'))['propert
 CHECKS=("$@"); [ ${#CHECKS[@]} -eq 0 ] && CHECKS=("$ID")
 cd /verif
 [ -z "$(git -C /repo status --porcelain)" ] || { echo "/repo not clean"; exit 2; }
+EVBAK=$(mktemp -d /verif/target/evbak-XXXXXX); cp -a /verif/evidence/. "$EVBAK/"   # the evidence of runs on a CHANGED tree must never replace the real one
 git -C /repo apply "$D/patch.diff" || exit 2
 for c in "${CHECKS[@]}"; do
   start=$(date +%s)
@@ -23,4 +24,5 @@ json.dump(m, open(p, 'w'), indent=1, ensure_ascii=False)
 PY
 done
 git -C /repo checkout -- .
+rm -rf /verif/evidence; mkdir -p /verif/evidence; cp -a "$EVBAK/." /verif/evidence/; rm -rf "$EVBAK"
 rm -rf /verif/replays/*/found /tmp/recheck.log
